@@ -26,7 +26,7 @@ CHECKS["C02"] = dict(
         "C02_identifier_not_truncated / C02_string_not_truncated prove that no name or string that is not reported is cut by the token buffer. "
         "The model parser is compared with the real parser on every operator "
         "pair/triple, random trees, mutated token strings, boundary literals, calls of process sets (argument order) and every builtin name, all "
-        "in one process with rejected inputs (unterminated comment, string, bracket) interleaved; the reference table decides disagreements and yields the replay.",
+        "in one process with rejected inputs (unterminated comment, string, bracket) interleaved; the reference table decides disagreements and yields the replay. Comma lists (ExprList): the recursion direction is read from parser.y and C02_comma_list / utap_comma_matches_spec give the left-nested tree for lists of any length; lists of 1-8 elements are compared in ten contexts.",
    note="Trusted: Lean kernel, axioms propext/Quot.sound/Classical.choice, translate/exprgrammar.py, harness/c02.cpp, the reference table "
         "Spec/OperatorTable.lean (hand-written from the UPPAAL language reference). That bison's LALR automaton behaves as the "
         "operator-precedence model is validated by the correspondence, not proved. Double literals: nearest-double conversion is tested "
@@ -147,7 +147,7 @@ add("C08",
     "and throw branches, hence in every reachable state for any callback sequence whatsoever (C08_init, C08_step, C08_reachable and corollaries); "
     "own-template and init-location clauses under the callers' discipline (C08_own_template, C08_init_own_location, C08_init_location). "
     "Correspondence: TraceBuilder (generated from builder.h) feeds the real callback sequences of generated and faulted XML/XTA inputs to the Lean "
-    "model and compares stack depths and document shape; an invariant walker checks the real Document after every parse.",
+    "model and compares stack depths and document shape; an invariant walker checks the real Document after every parse. C08_mapping_exact: the keys of an instance mapping are pairwise distinct symbols and exactly the bound parameters; instantiation chains whose own parameters share names with the ones they bind exercise it.",
     T + "Model/Builder.lean (hand-written reading of DocumentBuilder/StatementBuilder/ExpressionBuilder, validated by the trace correspondence), "
     "translate/c08_builder_h.py, harness/c08*.  Expressions are opaque identities. Known finding: an XTA process with an empty body is accepted without init.",
     "Lean 4 invariant by induction over all builder callback sequences + trace correspondence + invariant walker on the implementation")
@@ -182,7 +182,7 @@ add("C11",
     "++/--, calls to functions whose bodies write, through any statement nesting and call chain) then changes_any_variable reports it "
     "(C11_sound_*, C11_function_changes), side-effect-free twins are not rejected (C11_twin*), and every context the property lists has a check site "
     "(C11_contexts, C11_sites_complete); general theorems hold for every configuration satisfying decidable completeness predicates, today's "
-    "instance by decide. Correspondence: real function_t::changes and the verdicts on contexts x write forms, random programs with Python ground truth.",
+    "instance by decide. Correspondence: real function_t::changes and the verdicts on contexts x write forms, random programs with Python ground truth. The type walk of the checker (checkType per case, its call sites, strip_array) is translated too: C11_every_dimension_checked.",
     T + "translate/effects.py (fails closed), harness/c11*.  The harness reads private members of TypeChecker (#define private public, read-only). "
     "1 defect repaired (P.f() in queries).",
     "Lean 4 soundness theorem for the write analysis over tables translated from the source + differential correspondence")
@@ -232,7 +232,7 @@ add("C16",
     "frame stack is restored exactly when the binders are balanced (C16_label_text_keeps_doc, C16_label_frame, C16_fragments*, C16_frames_balanced); declaration "
     "blocks only extend (C16_decl_prefix). The exception shapes (a quantifier binder abandoned between push and pop) are computed from the grammar table "
     "regenerated from parser.y (C16_exception_shapes), negated on witnesses and replayed. Correspondence/oracle: single-fault injection into one block of "
-    "generated models; every other field of the dump and the attribution of every diagnostic must equal the fault-free run.",
+    "generated models; every other field of the dump and the attribution of every diagnostic must equal the fault-free run. The model-wide CSP/IO synchronisation-style check (a state machine read from visitEdge) is modelled: C16_sync_attribution and C16_sync_first_label_witness prove on which labels it is reported (a known finding), and the library is compared with it.",
     T + "translate/c16_grammar.py, Model/Builder.lean (validated by the C08 trace correspondence), harness/c16.cpp. Known findings: leaked binder frames "
     "(7 callbacks), one cascading diagnostic.",
     "Lean 4 frame theorem over all label callback lists + grammar-derived exception shapes + fault-injection oracle")
